@@ -21,7 +21,8 @@ CONSTANTS Actions,      \* set of concurrently running actions
           Names,        \* names used by modifications and look-ups
           MaxMods,      \* bound on local modifications per behaviour
           MaxFaults,    \* bound on injected storage errors
-          PutNodes      \* nodes CreateChildren may insert
+          PutNodes,     \* nodes CreateChildren may insert
+          RenameTo      \* target names of renames
 
 VARIABLES cas,     \* contents of the CAS (never changed by any action)
           tree,    \* action -> lazily materialised tree (what the code holds)
@@ -121,7 +122,7 @@ Next ==
               \/ Mkdir(a, p, n)
               \/ CreateFile(a, p, n)
               \/ \E node \in PutNodes : \E ow \in BOOLEAN : PutChild(a, p, n, node, ow)
-              \/ \E p2 \in Dirs(tree[a]) : \E n2 \in Names : Rename(a, p, n, p2, n2)
+              \/ \E p2 \in Dirs(tree[a]) : \E n2 \in RenameTo : Rename(a, p, n, p2, n2)
     \/ \E q \in DOMAIN tree[a] :
          \/ Read(a, q)
          \/ \E k \in AlterKinds : Alter(a, q, k)
